@@ -44,7 +44,7 @@ def vine_case(dmin=2, dmax=7, nmin=30, nmax=300):
                 'truncated': draw(st.one_of(st.integers(1, 8), st.just(3))),
                 'round': draw(st.sampled_from([None, None, None, 2, 1, 0])),
                 'flip': draw(st.lists(st.booleans(), min_size=d, max_size=d)),
-                'perm': draw(S.SEEDS)}
+                'perm': draw(S.SEEDS), 'prefit_seed': draw(st.one_of(st.none(), st.none(), S.SEEDS))}
 
     return cases()
 
@@ -82,6 +82,21 @@ def fit_vine(case, df, random_state=None):
     from copulas.multivariate import VineCopula
 
     vine = VineCopula(case['vine_type'], random_state=random_state)
+    if case.get('prefit_seed') is not None:
+        # history: the same object was fitted on another table (one column less when possible), sampled and queried before
+        from vlib import models as M
+
+        other = M.variant_table(df, case['prefit_seed'])
+        if other.shape[1] > 2 and case['prefit_seed'] % 2:
+            other = other.iloc[:, :-1]
+        try:
+            vine.fit(other, truncated=max(1, case['truncated'] - 1))
+            vine.sample(1)
+            vine.get_likelihood(np.full((1, other.shape[1]), 0.4))
+        except Exception:
+            vine = VineCopula(case['vine_type'], random_state=random_state)
+        if random_state is not None:
+            vine.set_random_state(random_state)
     old = signal.signal(signal.SIGALRM, _alarm)
     signal.alarm(120)
     try:
@@ -113,7 +128,7 @@ def oracle(case):
     df = build(case)
     d = df.shape[1]
     vine, kind, err = fit_vine(case, df)
-    cls = ['type:' + case['vine_type'], 'd=%d' % d, 'trunc=%d' % min(case['truncated'], 8)]
+    cls = ['type:' + case['vine_type'], 'd=%d' % d, 'trunc=%d' % min(case['truncated'], 8), 'refitted-model' if case.get('prefit_seed') is not None else 'fresh-model']
     if kind == 'exc':
         why = degenerate(df)
         require(why is not None, 'VineCopula(%r).fit(truncated=%d) raised ValueError(%s) on a %dx%d table without degenerate dependence'
